@@ -68,3 +68,30 @@ func FuzzVerifC15PodStore(f *testing.F) {
 			Records: []vfC15KV{{K: g.Bytes("ns/p0"), V: g.Bytes(rec)}}})
 	})
 }
+
+// FuzzVerifC15KubeadmConfig: the kubeadm-config documents under the coverage-guided
+// fuzzer through setSvcCIDR -> serviceCidrFromAPIServer (oracle of
+// TestVerifC15ServiceCIDR; what the documents must yield is unknown for fuzzed bytes, so
+// only "value or error, never a panic, never both" is judged).
+func FuzzVerifC15KubeadmConfig(f *testing.F) {
+	good := "apiVersion: kubeadm.k8s.io/v1beta3\nkind: ClusterConfiguration\nnetworking:\n  dnsDomain: cluster.local\n  podSubnet: 10.0.0.0/8\n  serviceSubnet: 172.21.0.0/20\n"
+	f.Add([]byte(good), []byte(good), "", uint8(3))
+	f.Add([]byte(good), []byte(""), "fd00::/108", uint8(2))
+	for _, s := range append(vfC15KubeadmHostile, g.FuzzHostile...) {
+		f.Add([]byte(s), []byte(good), "", uint8(3))
+		f.Add([]byte(good), []byte(s), "x", uint8(2))
+	}
+	f.Fuzz(func(t *testing.T, master, cluster []byte, svc string, keys uint8) {
+		defer g.FuzzGuard(t, "FuzzVerifC15KubeadmConfig", master, cluster, svc, keys)()
+		s := vfC15SvcScenario{Kind: "fuzz", ServiceCIDR: g.Bytes(svc), CMExists: keys&4 == 0}
+		if keys&1 != 0 {
+			m := g.Bytes(master)
+			s.Master = &m
+		}
+		if keys&2 != 0 {
+			cl := g.Bytes(cluster)
+			s.Cluster = &cl
+		}
+		vfC15RunSvc(g.FuzzSink{T: t}, s)
+	})
+}
